@@ -57,6 +57,16 @@ impl PerClientStats {
         }
     }
 
+    /// Same as `with_limit`, available to the verification harness
+    #[cfg(roughenough_verif)]
+    pub fn verif_with_limit(limit: usize) -> Self {
+        PerClientStats {
+            clients: AHashMap::with_capacity(limit),
+            num_overflows: 0,
+            max_clients: limit,
+        }
+    }
+
     #[inline]
     fn too_many_entries(&mut self) -> bool {
         let too_big = self.clients.len() >= self.max_clients;
